@@ -174,6 +174,9 @@ func newErrFlow(c *Ctx, sentinelPaths []string, exempt map[string]string) *errFl
 }
 
 func declName(obj *types.Func) string {
+	if a, ok := declAlias.Load(obj); ok {
+		return a.(string)
+	}
 	sig := obj.Type().(*types.Signature)
 	if r := sig.Recv(); r != nil {
 		t := r.Type()
